@@ -1,6 +1,7 @@
 package main
 
 import (
+	"go/token"
 	"fmt"
 	"os"
 	"time"
@@ -14,6 +15,8 @@ import (
 func (P *Program) genVC(fn *ssa.Function, opts genOpts) (vc *VC) {
 	P.mu.Lock()
 	defer P.mu.Unlock()
+	P.abstractDiv = opts.abstractDiv || os.Getenv("VC_ABSTRACT_DIV") != ""
+	defer func() { P.abstractDiv = false }()
 	ct := P.contractFor(fn)
 	loopMods := map[string]map[string]bool{}
 	autoInv := opts.autoInv
@@ -127,6 +130,7 @@ func (P *Program) genVC(fn *ssa.Function, opts genOpts) (vc *VC) {
 }
 
 type genOpts struct {
+	abstractDiv  bool
 	houdini      bool
 	houdiniCheck bool
 	autoInv      map[string][]*autoCand
@@ -205,6 +209,10 @@ func (vc *VC) render(obs []*Oblig, dialect string, timeoutMs int) string {
 
 // verify generates and discharges the obligations of fn, inferring simple loop
 // invariants (Houdini) where the contract supplies none.
+// houdiniTimeoutMs: budget per candidate-invariant query. Baselines are written with 2 s; checks run with a
+// larger budget so that a loaded machine never loses an invariant the baseline relied on.
+var houdiniTimeoutMs = 2000
+
 func (P *Program) verify(fn *ssa.Function, timeoutMs int, par int, keepDir string, noInline bool, skip map[string]bool) *VC {
 	trace := os.Getenv("VC_TRACE") != ""
 	tStart := time.Now()
@@ -237,7 +245,7 @@ func (P *Program) verify(fn *ssa.Function, timeoutMs int, par int, keepDir strin
 			}
 			tr(fmt.Sprintf("houdini round %d: %d candidate obligations, %d items", round, len(cands), len(vc.items)))
 			sub := &VC{P: P, tt: vc.tt, items: vc.items, obligs: cands}
-			sub.dischargeWith(2000, 8, "", []string{"z3-new", "cvc5"})
+			sub.dischargeWith(houdiniTimeoutMs, 8, "", []string{"z3-new", "cvc5"})
 			dropped := 0
 			if trace {
 				for _, o := range cands {
@@ -300,6 +308,39 @@ func (P *Program) verify(fn *ssa.Function, timeoutMs int, par int, keepDir strin
 		vc.discharge(timeoutMs, par, keepDir)
 	}
 	tr("discharged")
+	// Second attempt for undecided obligations of functions that divide by a symbolic value: bit-blasted 64-bit
+	// division stalls the solvers even where it is irrelevant. Regenerate with the quotient/remainder replaced by
+	// their ranges (an over-approximation) and keep only the "unsat" answers of that run.
+	{
+		undecided := map[string]*Oblig{}
+		for _, o := range vc.obligs {
+			if o.Status != "unsat" && o.Status != "sat" && o.Status != "skipped" {
+				undecided[o.Name] = o
+			}
+		}
+		if len(undecided) > 0 && funcHasSymbolicDiv(fn, 3) {
+			vc2 := P.genVC(fn, genOpts{houdini: true, houdiniCheck: false, autoInv: autoInv, noInline: noInline, abstractDiv: true})
+			if vc2.err == nil {
+				var again []*Oblig
+				for _, o := range vc2.obligs {
+					if undecided[o.Name] != nil {
+						again = append(again, o)
+					}
+				}
+				all := vc2.obligs
+				vc2.obligs = again
+				vc2.discharge(timeoutMs, par, "")
+				vc2.obligs = all
+				for _, o := range again {
+					if o.Status == "unsat" {
+						u := undecided[o.Name]
+						u.Status, u.Solver, u.Ms = "unsat", o.Solver+" (division by symbolic divisor over-approximated)", o.Ms
+					}
+				}
+			}
+			tr("division-abstracted retry")
+		}
+	}
 	if P.contractFor(fn) != nil || vc.usedContracts {
 		vc.checkVacuity()
 	} else {
@@ -378,4 +419,26 @@ func (vc *VC) checkVacuity() {
 	default:
 		vc.Vacuity = "undetermined"
 	}
+}
+
+
+// funcHasSymbolicDiv: does fn (or a callee up to the given depth) divide by a non-constant?
+func funcHasSymbolicDiv(fn *ssa.Function, depth int) bool {
+	for _, b := range fn.Blocks {
+		for _, in := range b.Instrs {
+			if bo, ok := in.(*ssa.BinOp); ok && (bo.Op == token.QUO || bo.Op == token.REM) {
+				if _, c := bo.Y.(*ssa.Const); !c {
+					return true
+				}
+			}
+			if depth > 0 {
+				if c, ok := in.(ssa.CallInstruction); ok {
+					if sc := c.Common().StaticCallee(); sc != nil && len(sc.Blocks) > 0 && funcHasSymbolicDiv(sc, depth-1) {
+						return true
+					}
+				}
+			}
+		}
+	}
+	return false
 }
